@@ -139,7 +139,7 @@ func runRacyScenario(args []string) {
 		go func() { _ = s.WriteClose(1000, nil); close(cdone) }() // wins the CAS, waits for the lock
 		time.Sleep(20 * time.Millisecond)
 		_, _ = peer.Write([]byte{0x89, 0x00}) // unmasked frame: the reader fails, loses the CAS, runs OnClose and reclaims
-		time.Sleep(20 * time.Millisecond)      // no synchronisation with the read loop: the overlap is what is being examined
+		time.Sleep(20 * time.Millisecond)     // no synchronisation with the read loop: the overlap is what is being examined
 		sc.Unstall()
 		<-wdone
 		<-cdone
